@@ -34,10 +34,14 @@ def run(run, tier):
     res = GL.standard_run(run, EoN, sim, 'SIS', tier)
     SC.report(run, 'C02', 'Gillespie_SIS', res, 'Model/Gillespie.v', 'Props/C02.v')
     extra = {'distribution': res.stats, 'mismatches': len(res.mism), 'oracle_failures': len(res.oracle_bad)}
+    # fast_SIS half (Model/EventSIS.v, theorems Props/C02fast.v)
     try:
-        from . import esis_lib as EL
-        if hasattr(EL, 'c02_fast_part'):
-            extra['fast_SIS'] = EL.c02_fast_part(run, EoN, sim, tier)
+        from . import c02_fast
+        fp = c02_fast.run_fast_part(run, tier, 'C02')
+        extra['fast_SIS'] = {k: v for k, v in fp.items() if k not in ('props', 'samples')}
+        extra['fast_SIS']['theorems'] = (fp.get('props') or {}).get('theorems')
+        res.n += fp.get('n', 0); res.nontrivial += fp.get('nontrivial', 0)
+        res.distinct |= {('fast_SIS', i) for i in range(fp.get('distinct', 0))}
     except ImportError:
         extra['fast_SIS'] = 'event-driven component not built yet'
     if not props['ok']:
